@@ -82,6 +82,31 @@ pub fn fanout(r: &mut Rng, k: usize) -> (Universe, Prob, usize) {
     (u, p, width)
 }
 
+/// One package with 260..420 hinted candidates; some candidates (the first-ranked one among them)
+/// require further packages that nothing else mentions.
+pub fn many_hinted(r: &mut Rng) -> (Universe, Prob) {
+    let mut u = Universe::default();
+    let n = 260 + r.below(160) as u32;
+    for v in 1..=n {
+        u.solv("big", v);
+    }
+    let extra = 1 + r.below(4) as usize;
+    for k in 0..extra {
+        let nm = format!("e{k}");
+        u.solv(&nm, 1);
+        let vs = u.vs(&nm, 0, 100);
+        // the newest candidate always names one; others at random positions
+        let who = if k == 0 { n } else { 1 + r.below(n as u64) as u32 };
+        let s = u.solv("big", who);
+        u.add_req(s, Req::Single(vs));
+    }
+    let root = u.vs("big", 0, 10_000);
+    u.finalize();
+    let bi = u.pkgs.iter().position(|p| p.name == "big").unwrap();
+    u.pkgs[bi].hint = Hint::All;
+    (u, Prob { reqs: vec![Req::Single(root)], cons: vec![], soft: vec![] })
+}
+
 impl Monitor for C11 {
     type Case = C11Case;
     fn id(&self) -> &'static str {
@@ -103,6 +128,13 @@ impl Monitor for C11 {
             let (u, p, w) = fanout(r, k);
             policies.truncate(3);
             return C11Case { family: format!("fanout-{k}"), u, p, policies, expect_root_width: Some(w), pause_mask: PAUSE_CANDS | PAUSE_DEPS };
+        }
+        if i % 997 == 5 {
+            // a package with hundreds of candidates whose dependencies are all hinted as available
+            // (hundreds of requests pending at once); a few of them name further packages
+            let (u, p) = many_hinted(r);
+            policies.truncate(2);
+            return C11Case { family: "hinted-many".into(), u, p, policies, expect_root_width: None, pause_mask: PAUSE_CANDS | PAUSE_DEPS };
         }
         let (name, cfg) = pick_family(r, FAMILIES);
         let (u, p) = gener::generate(r, &cfg);
